@@ -291,12 +291,18 @@ def run_C14(tier, seed, replay=None, procs=16):
             q, maps = VR.permute(base, order)
             for scheme in (list(VR.SCHEMES) if oi <= 1 else ["plain"]) if full else (list(VR.SCHEMES) if oi == 0 else ["prefixes"]):
                 r = VR.rename(q, scheme)
-                for hist in ((0, 2, 3) if oi == 0 and scheme == "plain" else (0, 2) if oi <= 1 else (1,)):
+                for hist in ((0, 2, 3, 4) if oi == 0 and scheme == "plain" else (0, 2) if oi <= 1 else (1,)):
                     t = copy.deepcopy(r)
                     t["tag"] = f"{base['tag']}/order{oi}/{scheme}/history{hist}"
                     tiny = hist == 3
                     if tiny:
                         hist = 1
+                    if hist == 4:
+                        # an earlier problem is solved in the middle of this one's declaration
+                        t["_opts"] = {"build_kw": {"other_midway": True}}
+                        twins.append(t)
+                        meta.append({"base": bi, "maps": maps, "order": order, "scheme": scheme, "history": 4})
+                        continue
                     if hist:
                         # earlier, unrelated problems that reuse the very same element names
                         others = []
